@@ -21,7 +21,7 @@ package syntax
 // whatever the import form. (That a local symbol is emitted as it stands needs word equations over the captures
 // that no installed solver decides in time: not stated, see DESIGN section 8.)
 //@ func CompileServiceValue pure
-//@   property C12 C02
+//@   property C12 C02 C14
 //@   requires [wired] a != nil
 //@   ensures [pointer_prefix_kept] matches(expr, regexServiceValue) && hasPrefix(expr, "&") ==> hasPrefix(result, "&")
 //@   ensures [local_struct_as_written] inLang(expr, reFull("&?[A-Za-z][A-Za-z0-9_]*\\{\\}")) ==> result == expr
